@@ -402,10 +402,12 @@ def minimal_long_form(repo: Repo, f: Func) -> t.Tuple[bool, str, t.Optional[ast.
             return False, f"length loop appends {unparse(arg)} {'and is not reversed' if not rev else ''}: not the big-endian minimal octets", lp
     for n in body_nodes(f.node):
         if isinstance(n, ast.Call) and isinstance(n.func, ast.Attribute) and n.func.attr == "to_bytes" and n.args:
-            w = unparse(n.args[0])
-            v = unparse(n.func.value)
+            from .util import prov_text
+
+            w = prov_text(f, n.args[0], n)
+            v = prov_text(f, n.func.value, n)
             big = any(unparse(x) == "'big'" for x in list(n.args[1:2]) + [k.value for k in n.keywords if k.arg == "byteorder"])
-            if big and w in (f"({v}.bit_length() + 7) // 8", f"math.ceil({v}.bit_length() / 8)"):
+            if big and w in (f"({v}.bit_length() + 7) // 8", f"(7 + {v}.bit_length()) // 8", f"math.ceil({v}.bit_length() / 8)", f"-(-{v}.bit_length() // 8)"):
                 return True, "to_bytes((bit_length + 7) // 8, 'big'): minimal and big-endian", n
     return False, "the long form length octets are not derived from the value's magnitude (while v: append(v & 0xFF); v >>= 8; reverse): fixed-width encodings emit leading zero octets, which is BER, not DER", None
 
